@@ -468,7 +468,9 @@ class KademliaProtocol(DatagramProtocol):
             # will be added to our routing table if successful
             is_good = self.peer_manager.peer_is_good(peer)
             if is_good is None:
-                self.ping_queue.enqueue_maybe_ping(peer)
+                # nothing is gained by waiting five minutes to verify a contact that its bucket has room for
+                bucket = self.routing_table.buckets[self.routing_table._kbucket_index(peer.node_id)]
+                self.ping_queue.enqueue_maybe_ping(peer, delay=0 if len(bucket) < bucket.capacity else None)
             # only add a requesting contact to the routing table if it has replied to one of our requests
             elif is_good is True:
                 self.add_peer(peer)
